@@ -502,6 +502,15 @@ def build(draw):
             H['M"c'] = [mset2, desc(None)]
             H['M"d'] = [desc(txt(d2, sep))]
             pairs += [('M"', 'M"c', "final"), ('M"', 'M"d', "final")]
+            # MasterConfig changed AFTER the parse: what the subordinate
+            # Tracts fall back on in a later set_twprgesec() is read at the
+            # time of that call, not handed down frozen by the parse
+            H["Ml"] = [mset, desc(None), mset2]
+            pairs.append(("Ml", 'M"c', "obs"))
+            if sigma:
+                H["Ml'"] = [mset, desc(txt(sigma, sep)), mset2]
+                H["M2'"] = [mset2, desc(txt(sigma, sep))]
+                pairs.append(("Ml'", "M2'", "obs"))
         elif cls == "Tract":
             ft = {"op": "create", "cls": "from_twprgesec", "text": text,
                   "tw": tw, "config": None, "kw": {}}
@@ -915,6 +924,10 @@ def _project(res, what):
         return f
     if what == "tracts":
         return f.get("tracts") if isinstance(f, dict) else f
+    if what == "obs":
+        # only what the subordinate Tracts do later, in set_twprgesec
+        return {"__obs_inherited": f.get("__obs_inherited")} \
+            if isinstance(f, dict) else f
     if what == "lots_qqs":
         return f.get("lots_qqs") if isinstance(f, dict) else f
     if what == "ret":
